@@ -539,6 +539,11 @@ func (x *g) numExpr(d int) expr {
 			o := os[x.n("objvar", len(os)-1)]
 			x.feat("member")
 			if x.chance("bracketmember", 3) {
+				if x.chance("numstrindex", 3) {
+					x.feat("numeric-string-index")
+					ix := x.pick("numstrindex2", []string{"1.0", ".5", "01", "10", "1000", "0", "1e3"})
+					return expr{"(function(o){o[\"" + ix + "\"]=1;o[1]=2;o[.5]=4;o[10]=8;o[1e3]=16;o[0]=32;return o[\"" + ix + "\"]})(" + x.ref(o) + ")", 16}
+				}
 				return expr{x.ref(o) + "[" + x.s() + "\"p\"" + x.s() + "]", 16}
 			}
 			return expr{x.ref(o) + x.s() + "." + x.s() + "p", 16}
@@ -898,6 +903,15 @@ func (x *g) objExpr(d int) expr {
 		k := x.pick("prop", propNames)
 		switch x.n("propform", 8) {
 		case 0:
+			if x.chance("numerickey", 3) {
+				// string keys that read as numbers: only the canonical ones name the same property as the number
+				k = x.pick("numstrkey", []string{"10", "0", "1.0", ".5", "01", "1e3", "0x10", "1000", "0.50", "-1"})
+				if x.guard("noNonCanonicalNumericKey") && (k == "1.0" || k == ".5") {
+					x.prog.Excluded["noNonCanonicalNumericKey"]++
+					k = "10"
+				}
+				x.feat("numeric-string-key")
+			}
 			parts = append(parts, "\""+k+"\":"+x.par(x.anyExpr(d-1), 1))
 		case 1:
 			if x.es(2015) {
